@@ -110,6 +110,10 @@ pub fn check_single(p: &str) -> CaseResult {
         } else if cs != ["/"] {
             return Err(Failure::new("dir|err", format!("dir{} failed although a parent exists", args)));
         }
+        // "ParentNotFound if the path has no parent": the root has none (callers rely on that to refuse the root)
+        if cs == ["/"] && dir.is_ok() {
+            return Err(Failure::new("dir|root-has-a-parent", format!("dir{} = {:?} but the root has no parent", args, dir.as_ref().ok().map(|d| s_of(d)))));
+        }
     }
 
     // --- first / trim_first, last / trim_last ---------------------------------------------------
